@@ -50,15 +50,18 @@ SrcFmt(o) == IF SubSeq(o, 1, 2) = "ld" THEN "ld" ELSE SubSeq(o, 1, 1)
 DstFmt(o) == IF SubSeq(o, Len(o) - 1, Len(o)) = "ld" THEN "ld" ELSE SubSeq(o, Len(o), Len(o))
 
 (* kinds of rows: one TLC level per choice so that workers share the table *)
-Kinds == {"u", "b", "br1", "br2", "ld", "st", "f2", "fc", "f1", "i2fp", "fp2i", "fcv"}
+Kinds == {"u", "uu", "b", "br1", "br2", "ld", "st", "f2", "fc", "f1", "i2fp", "fp2i", "fcv"}
+(* "uu": two extension insns in a row (the optimiser combines such chains) *)
+ExtOps == {"ext8", "ext16", "ext32", "uext8", "uext16", "uext32"}
+UUOps == {[n |-> o1 \o ">" \o o2, o1 |-> o1, o2 |-> o2] : o1 \in ExtOps, o2 \in ExtOps}
 VARIABLES kind, fmt, x, y
 allvars == <<lvl, kind, op, fmt, a, b, x, y>>
 OpsOf(k) ==
-  CASE k = "u" -> IntUnary [] k = "b" -> IntBinary [] k = "br1" -> {"bt", "bf", "bts", "bfs"} [] k = "br2" -> IntBranch
+  CASE k = "u" -> IntUnary [] k = "uu" -> {q.n : q \in UUOps} [] k = "b" -> IntBinary [] k = "br1" -> {"bt", "bf", "bts", "bfs"} [] k = "br2" -> IntBranch
     [] k = "ld" -> LdTypes [] k = "st" -> LdTypes [] k = "f2" -> FpArith [] k = "fc" -> FpCmp [] k = "f1" -> {"neg"}
     [] k = "i2fp" -> IntConv [] k = "fp2i" -> FpToInt [] k = "fcv" -> FpConvOps
 NeedsFmt(k) == k \in {"f2", "fc", "f1"}
-IntArgs(k) == CASE k \in {"u", "br1", "ld", "st", "i2fp"} -> 1 [] k \in {"b", "br2"} -> 2 [] OTHER -> 0
+IntArgs(k) == CASE k \in {"u", "uu", "br1", "ld", "st", "i2fp"} -> 1 [] k \in {"b", "br2"} -> 2 [] OTHER -> 0
 FpArgs(k) == CASE k \in {"f1", "fp2i", "fcv"} -> 1 [] k \in {"f2", "fc"} -> 2 [] OTHER -> 0
 InFmtOf == IF kind \in {"fp2i", "fcv"} THEN SrcFmt(op) ELSE fmt
 
@@ -75,6 +78,8 @@ Complete == lvl = 4
 
 Row ==
   CASE kind = "u" -> [k |-> kind, op |-> op, a |-> a, r |-> Sem1(op, a)]
+    [] kind = "uu" -> LET q == CHOOSE z \in UUOps : z.n = op IN
+                      [k |-> kind, op |-> op, o1 |-> q.o1, o2 |-> q.o2, a |-> a, r |-> Sem1(q.o2, Sem1(q.o1, a).v)]
     [] kind = "b" -> IF op \in IntOvf THEN [k |-> kind, op |-> op, a |-> a, b |-> b, r |-> Sem2(op, a, b),
                                            fs |-> OvfFlags(op, a, b).s, fu |-> OvfFlags(op, a, b).u]
                     ELSE [k |-> kind, op |-> op, a |-> a, b |-> b, r |-> Sem2(op, a, b)]
